@@ -18,6 +18,7 @@ structure DSt where
   obs : Option StageObs := none       -- `on_stage_complete` script
   nests : List Bool := []            -- per stage: does its processor re-enter run() on the same cascade (search-only op)
   cobs : Option CascObs := none      -- `on_cascade_complete` script
+  last : Nat := 0                    -- final output of the last successful `run` that returned (`run prev` feeds it back in)
 
 def mkStage (i : Nat) (cp pr eh : String) (req : Bool) (amp : Rat) : Stage Nat :=
   { checkpoint :=
@@ -94,7 +95,8 @@ def step (st : DSt) (toks : List String) : DSt × String :=
     match st.names.findIdx? (· == name) with
     | some i => ({ st with stages := st.stages.eraseIdx i, names := st.names.eraseIdx i, nests := st.nests.eraseIdx i }, "1")
     | none => (st, "0")
-  | ["run", x] =>
+  | ["run", x0] =>
+    let x := if x0 = "prev" then toString st.last else x0      -- `run prev`: the previous output fed back in
     -- with an `on_cascade_complete` observer the line shows the result the observer was shown (= the one returned), and
     -- `craise` when the observer raised (then `run` raises: nothing is returned)
     let cmark : String := match st.cobs with
@@ -113,7 +115,11 @@ def step (st : DSt) (toks : List String) : DSt × String :=
     let nestedN := (outer.1.log.filter fun e => match e with | .proc i _ => st.nests.getD i false | _ => false).length
     let innerR := resultO st.cfg st.obs st.stages 3
     let oks := (if outer.1.success then 1 else 0) + (if innerR.1.success then nestedN else 0)
-    ({ st with runs := st.runs + 1 + nestedN, okRuns := st.okRuns + oks, badRuns := st.badRuns + (1 + nestedN - oks) },
+    let returned := match (resultC st.cfg st.obs st.cobs st.stages (natD x)).1 with | .ok _ => true | .raise => false
+    let last' := match outer.1.final with
+      | some v => if returned && outer.1.success then v else st.last
+      | none => st.last
+    ({ st with runs := st.runs + 1 + nestedN, okRuns := st.okRuns + oks, badRuns := st.badRuns + (1 + nestedN - oks), last := last' },
      String.intercalate " | " (render outer :: List.replicate nestedN (render innerR)))
   | ["set", "halt", v] => ({ st with cfg := ⟨boolOf v, st.cfg.maxAmp⟩ }, "ok")      -- public attributes re-assigned between runs
   | ["set", "max", v] => ({ st with cfg := ⟨st.cfg.halt, ratOf v⟩ }, "ok")
